@@ -67,16 +67,27 @@ def check(fb, ctx):
         ctx.ok("MONOTONE", name, f"{rb['file']}:{c['ln']}", f"`{op}` between the consumed quantity and the limit")
         return True
 
+    TY = {"limits": r"datalog::RunLimits$", "self": r"datalog::World$|authorizer::Authorizer$"}
+
     def field_of(n, base, field):
+        """`<expr of the base's type>.<field>` - the base is identified by its type, not by the name of a variable"""
         n = strip(n)
         while isinstance(n, dict) and n.get("k") == "cast":
             n = strip(n["e"])
-        return isinstance(n, dict) and n.get("k") == "field" and n.get("name") == field and is_local(strip(n["e"]), base)
+        return isinstance(n, dict) and n.get("k") == "field" and n.get("name") == field and bool(re.search(TY[base], (n.get("ety") or "").lstrip("&").replace("mut ", "")))
+
+    now_call = lambda z: hirq.calls_path(strip(z), r"time::Instant::now$")
+    start_ids = hirq.let_ids(rh["body"], now_call)
+    deadline_ids = hirq.let_ids(rh["body"], lambda z: strip(z).get("k") == "binary" and strip(z)["op"] == "Add" and hirq.is_lid(strip(strip(z)["a"]), start_ids) and field_of(strip(z)["b"], "limits", "max_time"))
+    now_ids = hirq.let_ids(loops[0], now_call)
+    # the round counter: `let mut c = 0` before the loop, `c += 1` at the loop's top level
+    zero_ids = hirq.let_ids(rh["body"], lambda z: hirq.literal(z) == 0)
+    counter_ids = {strip(s["e"]["lhs"])["res"]["id"] for s in stmts if (s.get("e") or {}).get("k") == "assignop" and s["e"]["op"] == "AddAssign" and hirq.is_lid(strip(s["e"]["lhs"]), zero_ids) and hirq.literal(s["e"]["rhs"]) == 1}
 
     for kind, (lp, rp, desc) in {
-        "TooManyIterations": (lambda n: is_local(n, "index"), lambda n: field_of(n, "limits", "max_iterations"), "iteration budget"),
+        "TooManyIterations": (lambda n: hirq.is_lid(n, counter_ids), lambda n: field_of(n, "limits", "max_iterations"), "iteration budget"),
         "TooManyFacts": (lambda n: n.get("k") == "mcall" and (n.get("def") or {}).get("path", "").endswith("FactSet::len") and field_of(n["recv"], "self", "facts"), lambda n: field_of(n, "limits", "max_facts"), "fact budget on the merged world"),
-        "Timeout": (lambda n: is_local(n) and n["res"]["name"] in ("now",), lambda n: is_local(n, "time_limit"), "time budget"),
+        "Timeout": (lambda n: hirq.is_lid(n, now_ids), lambda n: hirq.is_lid(n, deadline_ids), "time budget"),
     }.items():
         if kind not in tests:
             ctx.fail("BACKEDGE", f"{desc} test in the loop", f"BACKEDGE|{kind}", f"no top-level `if .. {{ break Err(RunLimit::{kind}) }}` in the fixpoint loop", where)
@@ -86,18 +97,24 @@ def check(fb, ctx):
         ctx.check(good_pos, "BACKEDGE", f"{desc} tested after the merge, before the next round", f"BACKEDGE|{kind}|position", f"RunLimit::{kind} test is evaluated before the new facts are merged", f"{rb['file']}:{e['ln']}")
         cmp_ok(c, lp, rp, f"{desc} comparison", f"MONOTONE|{kind}")
     # time_limit = start + limits.max_time
-    tl = [s for s in find_all(rh["body"], lambda n: n.get("k") == "let" and n["pat"].get("name") == "time_limit")]
-    ok = bool(tl) and tl[0].get("init") and find_all(tl[0]["init"], lambda n: n.get("k") == "field" and n.get("name") == "max_time")
-    ctx.check(bool(ok), "BACKEDGE", "deadline = start + limits.max_time", "BACKEDGE|deadline", "time_limit is not derived from limits.max_time", where)
+    ctx.check(len(deadline_ids) == 1, "BACKEDGE", "deadline = start + limits.max_time", "BACKEDGE|deadline", "no `let <deadline> = <Instant::now() taken before the loop> + limits.max_time`", where)
     # index is incremented exactly once per round before the iteration test
-    inc = [i for i, s in enumerate(stmts) if (s.get("e") or {}).get("k") == "assignop" and s["e"]["op"] == "AddAssign" and is_local(strip(s["e"]["lhs"]), "index")]
-    ctx.check(len(inc) == 1 and "TooManyIterations" in tests and idx_merge < inc[0] < tests["TooManyIterations"][0], "BACKEDGE", "round counter incremented before the iteration test", "BACKEDGE|index", "`index += 1` must sit between the merge and the iteration-budget test", where)
+    inc = [i for i, s in enumerate(stmts) if (s.get("e") or {}).get("k") == "assignop" and s["e"]["op"] == "AddAssign" and hirq.is_lid(strip(s["e"]["lhs"]), counter_ids)]
+    ctx.check(len(counter_ids) == 1 and len(inc) == 1 and "TooManyIterations" in tests and idx_merge < inc[0] < tests["TooManyIterations"][0], "BACKEDGE", "round counter incremented before the iteration test", "BACKEDGE|index", "`index += 1` must sit between the merge and the iteration-budget test", where)
+
+    # the fact budget is tested before the fixpoint exit: a world already over budget (a call that failed with TooManyFacts and
+    # is retried on the same authorizer) derives nothing new, and must still not report success
+    idx_fix = next((i for i, s in enumerate(stmts) if (lambda e: isinstance(e, dict) and e.get("k") == "if" and any((hirq.ctor_name(strip(b_.get("e") or {})) or "").endswith("::Ok") for b_ in find_all(e["then"], lambda z: z.get("k") == "break")))(s.get("e") if s.get("k") == "semi" else s)), None)
+    if idx_fix is None:
+        ctx.fail("BACKEDGE", "fixpoint exit at loop top level", "BACKEDGE|fixpoint", "no top-level `if <no new fact> { break Ok(()) }` in the fixpoint loop", where)
+    elif "TooManyFacts" in tests:
+        ctx.check(idx_merge < tests["TooManyFacts"][0] < idx_fix, "BACKEDGE", "fact budget tested before the fixpoint exit", "BACKEDGE|TooManyFacts|before-fixpoint", "the `break Ok(())` of the fixpoint test precedes the fact-budget test: a call retried after TooManyFacts finds nothing new and succeeds with more facts than the budget", f"{rb['file']}:{tests['TooManyFacts'][2]['ln']}")
 
     # ---- ACCOUNT
     after = rh["body"]["stmts"]
     acc = [s for s in find_all(rh["body"], lambda n: n.get("k") in ("assign", "assignop") and field_of(n["lhs"], "self", "iterations"))]
     in_loop = [s for s in find_all(loops[0], lambda n: n.get("k") in ("assign", "assignop") and field_of(n["lhs"], "self", "iterations"))]
-    uses_index = acc and find_all(acc[0]["rhs"], lambda n: is_local(n, "index"))
+    uses_index = acc and find_all(acc[0]["rhs"], lambda n: hirq.is_lid(n, counter_ids))
     conditional = acc and any(find_all(x, lambda n: n is acc[0]) for x in find_all(rh["body"], lambda n: n.get("k") in ("if", "match") and n.get("src") != "ForLoopDesugar"))
     ctx.check(len(acc) == 1 and not in_loop and bool(uses_index) and not conditional, "ACCOUNT", "World::iterations accumulates the rounds of every run", "ACCOUNT|iterations", "`self.iterations` must be increased by `index` once, after the loop, on every exit", f"{rb['file']}:{rb['line']}")
     for fn in ("query", "query_all", "authorize"):
@@ -113,10 +130,27 @@ def check(fb, ctx):
             mirq.must_pass(fb, ctx, b, r"Option::<T>::ok_or$|num::<impl u64>::checked_sub$", "ACCOUNT", f"Authorizer::{fn}: exhausted iteration budget is an error", f"ACCOUNT|{fn}|iterations-err", what="delegation to *_with_limits")
         # remaining time: guarded subtraction
         h = fb.hir_of(b)
-        guard = [n for n in find_all(h["body"], lambda n: n.get("k") == "if") if (lambda c: c.get("k") == "binary" and c.get("op") in ("Ge", "Gt") and is_local(strip(c["a"]), "execution_time") and field_of(c["b"], "limits", "max_time"))(strip(n["cond"])) and runlimit_kind(n["then"]) == "Timeout" and find_all(n["then"], lambda z: z.get("k") == "ret")]
-        sub = [n for n in find_all(h["body"], lambda n: n.get("k") == "assignop" and n["op"] == "SubAssign" and field_of(n["lhs"], "limits", "max_time"))]
+        exec_ids = hirq.let_ids(h["body"], lambda z: bool(find_all(z, lambda y: hirq.calls_path(y, r"Authorizer::run$"))))
+        guard = [n for n in find_all(h["body"], lambda n: n.get("k") == "if") if (lambda c: c.get("k") == "binary" and c.get("op") in ("Ge", "Gt") and hirq.is_lid(strip(c["a"]), exec_ids) and field_of(c["b"], "limits", "max_time"))(strip(n["cond"])) and runlimit_kind(n["then"]) == "Timeout" and find_all(n["then"], lambda z: z.get("k") == "ret")]
+        sub = [n for n in find_all(h["body"], lambda n: n.get("k") == "assignop" and n["op"] == "SubAssign" and field_of(n["lhs"], "limits", "max_time") and hirq.is_lid(strip(n["rhs"]), exec_ids))]
         order_ok = bool(guard) and bool(sub) and guard[0]["ln"] < sub[0]["ln"]
         ctx.check(order_ok, "ACCOUNT", f"Authorizer::{fn}: remaining time computed after the `>=` guard", f"ACCOUNT|{fn}|time", "`limits.max_time -= execution_time` must follow `if execution_time >= limits.max_time { return Err(Timeout) }`", f"{b['file']}:{b['line']}")
+    # time consumed by a run that FAILED also counts ("counted cumulatively across run, authorize and query calls"): every path
+    # from World::run_with_limits to a return of Authorizer::run stores something into self (execution_time / limits)
+    runb = fb.body(f"{A}::run")
+    rc = mirq.calls_matching(fb, runb, r"datalog::World::run_with_limits$")
+    if len(rc) != 1 or rc[0].target is None:
+        ctx.fail("ACCOUNT", "Authorizer::run evaluates through World::run_with_limits", "ACCOUNT|run|anchor", f"{len(rc)} calls found", f"{runb['file']}:{runb['line']}")
+    else:
+        # `execution_time: Some(_)` doubles as the "already evaluated" marker (run() returns early on it): it may only be set once
+        # evaluation succeeded, otherwise later calls decide on a half-evaluated world
+        marks = {i for i, blk in enumerate(runb["blocks"]) for st_ in blk["s"] if st_["d"]["l"] == 1 and ".execution_time" in (st_["d"].get("p") or [])}
+        se = mirq.success_edge(fb, runb, rc[0])
+        ctx.check(bool(marks) and se is not None and se[1] is not None and all(mirq.dominates(runb, se[1], i) for i in marks), "ACCOUNT", "Authorizer::run marks the world as evaluated only after World::run_with_limits succeeded", "ACCOUNT|run|marker", "self.execution_time is set on a path where World::run_with_limits did not succeed: run() then returns early on every later call and checks / policies are decided on a partially evaluated world", f"{runb['file']}:{rc[0].ln}")
+        stores = {i for i, blk in enumerate(runb["blocks"]) for st_ in blk["s"] if st_["d"]["l"] == 1 and any(pp in (".execution_time", ".limits") for pp in (st_["d"].get("p") or []))}
+        rets = {i for i, blk in enumerate(runb["blocks"]) if (blk.get("t") or {}).get("k") == "return"}
+        free = mirq.reachable_from(runb, rc[0].target, avoid=stores)
+        ctx.check(bool(stores) and not (free & rets), "ACCOUNT", "Authorizer::run records the time it consumed on every exit", "ACCOUNT|run|time-on-error", "a return of Authorizer::run is reachable from World::run_with_limits without any store into self.execution_time / self.limits: the time consumed by a run that failed (Timeout, TooManyFacts, ..) is forgotten, and every retry starts with a fresh max_time while keeping the facts derived so far", f"{runb['file']}:{rc[0].ln}")
     for fn in ("query_with_limits", "query_all_with_limits", "authorize_with_limits"):
         b = fb.body(f"{A}::{fn}")
         # the value stored into self.execution_time depends on run()'s result and on elapsed()
@@ -139,13 +173,15 @@ def check(fb, ctx):
     fors = [l for l in find_all(ah["body"], lambda n: n.get("k") == "loop" and n.get("src") == "ForLoop")]
     inner = [l for l in fors if mcalls(l, r"World::query_match(_all)?$") and not any(mcalls(l2, r"World::query_match(_all)?$") for l2 in find_all(l["body"], lambda n: n.get("k") == "loop" and n.get("src") == "ForLoop"))]
     ctx.floor("query loops in authorize_inner", len(inner), 4)
+    a_start = hirq.let_ids(ah["body"], now_call)
+    a_deadline = hirq.let_ids(ah["body"], lambda z: strip(z).get("k") == "binary" and strip(z)["op"] == "Add" and hirq.is_lid(strip(strip(z)["a"]), a_start) and field_of(strip(z)["b"], "limits", "max_time"))
+    a_now = a_start
     for n, l in enumerate(inner):
-        t = [x for x in find_all(l, lambda z: z.get("k") == "if") if (lambda c: c.get("k") == "binary" and c.get("op") in ("Ge", "Gt") and is_local(strip(c["b"]), "time_limit"))(strip(x["cond"])) and runlimit_kind(x["then"]) == "Timeout" and find_all(x["then"], lambda z: z.get("k") == "ret")]
+        t = [x for x in find_all(l, lambda z: z.get("k") == "if") if (lambda c: c.get("k") == "binary" and c.get("op") in ("Ge", "Gt") and hirq.is_lid(strip(c["b"]), a_deadline) and (hirq.is_lid(strip(c["a"]), a_now) or now_call(c["a"])))(strip(x["cond"])) and runlimit_kind(x["then"]) == "Timeout" and find_all(x["then"], lambda z: z.get("k") == "ret")]
         qs = mcalls(l, r"World::query_match(_all)?$")
         after_q = bool(t) and t[0]["ln"] > max(q["ln"] for q in qs)
         ctx.check(after_q, "TIMECHECK", f"authorize_inner query loop #{n}", f"TIMECHECK|loop{n}", "no `if now >= time_limit { return Err(Timeout) }` after the query in this loop", f"{ab['file']}:{l['ln']}")
-    tl2 = [s for s in find_all(ah["body"], lambda n: n.get("k") == "let" and n["pat"].get("name") == "time_limit")]
-    ctx.check(bool(tl2) and bool(find_all(tl2[0]["init"], lambda n: n.get("k") == "field" and n.get("name") == "max_time")), "TIMECHECK", "authorize_inner deadline = start + limits.max_time", "TIMECHECK|deadline", "time_limit not derived from limits.max_time", f"{ab['file']}:{ab['line']}")
+    ctx.check(len(a_deadline) == 1, "TIMECHECK", "authorize_inner deadline = start + limits.max_time", "TIMECHECK|deadline", "time_limit not derived from limits.max_time", f"{ab['file']}:{ab['line']}")
 
     # ---- REACH over the budget arithmetic
     ent = [fb.body(p)["key"] for p in (D + "::World::run_with_limits", f"{A}::query", f"{A}::query_all", f"{A}::authorize", f"{A}::authorize_with_limits", f"{A}::query_with_limits", f"{A}::query_all_with_limits", f"{A}::run")]
